@@ -176,7 +176,7 @@ func RunGoat(p GoProg) (status, out string) {
 	}
 	sb.WriteString(p.Src)
 	sb.WriteString("\nmain()\n")
-	goat.VerifSetBudget(30000000)
+	goat.VerifSetBudget(5000000)
 	o, err := runScript(sb.String())
 	goat.VerifSetBudget(-1)
 	if err != nil && strings.Contains(err.Error(), "budget exhausted") {
